@@ -190,17 +190,15 @@ const SPECIAL: [f64; 13] = [
     f64::MAX,
 ];
 
-/// |lon - rlon| reduced modulo 360 into [0, 180], as [degrees, micro] (part of the ruler:
-/// f64 subtraction of nearby doubles and fmod are exact; used by the trace specification
-/// where the integer micro-degree logging of huge coordinates saturates).
+/// |lon - rlon| reduced modulo 360 into [0, 180], as [degrees, micro] (part of the ruler;
+/// used by the trace specification where the integer micro-degree logging of huge
+/// coordinates saturates).
 fn dlon_mod(lon: f64, rlon: f64) -> Value {
     if !(lon.is_finite() && rlon.is_finite()) {
         return json!([SAT, 0]);
     }
-    let d = lon - rlon;
-    if !d.is_finite() {
-        return json!([SAT, 0]);
-    }
+    // each fmod is exact; the difference of two values below 360 is accurate to 1e-13
+    let d = (lon % 360.0) - (rlon % 360.0);
     let mut r = (d % 360.0).abs();
     if r > 180.0 {
         r = 360.0 - r;
